@@ -44,13 +44,24 @@ let () = serve (fun fn req ->
     let pre = SL.map inp_of_json (jlist (jfield req "pre")) in
     let outs = SL.map outp_of_json (jlist (jfield req "outs")) in
     let strat = strategy_of_json (jfield req "strategy") in
-    (match create fpb fpnc sh strat pre outs (wallet_of_json (jfield req "wallet")) with
-     | Ok (added, change, w) ->
+    (* can tx.sign succeed on this input list?  sign=False: always; a locked account cannot sign any input;
+       an input whose address has no key in the wallet cannot be signed *)
+    let signing = (match jfield_opt req "sign" with Some j -> jbool j | None -> false) in
+    let locked = (match jfield_opt req "locked" with Some j -> jbool j | None -> false) in
+    let unsignable = (match jfield_opt req "unsignable" with Some j -> SL.map (fun x -> string_of_n (jn x)) (jlist j) | None -> []) in
+    let can_sign (l : n list) =
+      not signing || (not (locked && l <> []) && not (SL.exists (fun i -> SL.mem (string_of_n i) unsignable) l)) in
+    let w = wallet_of_json (jfield req "wallet") in
+    (match create_signed fpb fpnc sh strat pre outs can_sign w with
+     | Built (added, change, w') ->
        JObj [("result", JStr "ok"); ("added", ids added); ("change", of_option of_z change);
-             ("reserved", nlist (reserved_ids w));
+             ("reserved", nlist (reserved_ids w'));
              ("fee", of_z (tx_fee pre outs added change));
              ("required", of_z (required_fee fpb fpnc pre outs added change))]
-     | Refused w -> JObj [("result", JStr "InsufficientFundsError"); ("reserved", nlist (reserved_ids w))])
+     | Insufficient w' -> JObj [("result", JStr "InsufficientFundsError"); ("reserved", nlist (reserved_ids w'))]
+     | SignFails w' ->
+       let held = (match create fpb fpnc sh strat pre outs w with Ok (a, _, _) -> ids a | Refused _ -> JArr []) in
+       JObj [("result", JStr "SignFails"); ("reserved", nlist (reserved_ids w')); ("held", held)])
   | "spendable" ->
     let fpb = jz (jfield req "fpb") in
     let sh = shuffle_of_json (jfield req "shuffles") in
